@@ -175,3 +175,55 @@ def check_record_casts(rep, u, fns, rule="R-TBAA"):
                 rep.violated(rule, fn, inst, desc, "((%s *)%s)->%s at line %s reads offset %d of a %s: unrelated records (probably a member of '%s' "
                              "was meant)" % (dst, src_e.get("n"), x.get("f"), x.get("ln"), x.get("off", 0) // 8, src, src_e.get("n")), x.get("ln"))
     return n
+
+
+def check_byte_param_casts(rep, unit, fns, rule="R-TBAA"):
+    """A byte pointer parameter (uint8_t* / void*: the caller's buffer, whose effective type the function cannot know) that
+    is cast to a pointer to a wider integer type which does not carry may_alias: every access through the result - in this
+    function or in a callee it is handed to - breaks C11 6.5p7 whenever the caller's object is not of that very type
+    (gcc -O2 then keeps the caller's copy in a register: an in-place block encryption returns its plaintext).
+    Returns the number of such casts classified."""
+    n = 0
+    for fn in fns:
+        if not fn.has_cfg:
+            continue
+        pids = {p["id"] for p in fn.params}
+        seen = set()
+        for pos, root, x, ps in fn.nodes():
+            if x.get("k") != "cast" or x.get("imp") or "t" not in x:
+                continue
+            t = unit.type(x["t"])
+            if t["k"] != "ptr":
+                continue
+            to = unit.type(t["to"])
+            if to["k"] != "int" or (to.get("size") or 1) <= 1:
+                continue
+            if ps and ps[-1].get("k") == "cast" and not ps[-1].get("imp"):
+                continue                    # an inner cast of a chain: the outermost decides
+            src = x["e"]
+            while src.get("k") == "cast":
+                src = src["e"]
+            st = unit.type(src["t"]) if "t" in src else None
+            if st is None or st["k"] != "ptr":
+                continue
+            sto = unit.type(st["to"])
+            if not (sto["k"] == "void" or (sto["k"] == "int" and (sto.get("size") or 1) == 1)):
+                continue
+            ids = core.ref_ids(src) & pids
+            if not ids:
+                continue
+            pname = next(p["n"] for p in fn.params if p["id"] in ids)
+            sig = (pname, to.get("s"))
+            if sig in seen:
+                continue
+            seen.add(sig)
+            n += 1
+            rep.functions.add(fn.name)
+            inst = "byte-param-as:%s:%s" % (pname, to.get("s"))
+            desc = "%s: the caller's buffer '%s' is accessed as %s only through a may_alias type" % (fn.name, pname, to.get("s"))
+            if to.get("ma"):
+                rep.proved(rule, fn, inst, desc, "may_alias", x.get("ln"))
+            else:
+                rep.violated(rule, fn, inst, desc, "cast to plain %s * at line %s: when the caller's block is a uint64_t, a struct or an array of another "
+                             "type, gcc -O2 may keep using its own copy (in-place encryption returns the plaintext)" % (to.get("s"), x.get("ln")), x.get("ln"))
+    return n
